@@ -1,11 +1,5 @@
 import GoLevel.Model.Key
-import GoLevel.Proofs.Block
-import GoLevel.Proofs.TableW
-import GoLevel.Proofs.TableR
-import GoLevel.Proofs.TableF
-import GoLevel.Proofs.TableD
-import GoLevel.Proofs.TableFF
-import GoLevel.Proofs.Bytewise
+import GoLevel.Proofs.TableTop
 /-!
 # Property C13: sorted tables round-trip, lookups, offsets, damage detection
 
@@ -69,13 +63,8 @@ example : Block.seek bytesCompare (Block.build 3 exKVs) [9] = some none := by
 every block size, restart interval, filter setting; both checksum-verification settings -/
 theorem table_entries_write (cfg : TableCfg) (hck : Cksum32 cfg.cksum) (kvs : List KV) (hs : SmallKV kvs)
     (hsz : (Table.write cfg kvs).length < 2 ^ 32) (verify : Bool) :
-    ∃ t, Table.open cfg verify (Table.write cfg kvs) = some t ∧ t.entries = some kvs := by
-  obtain ⟨cs, hfile, hflat, _⟩ := write_shape cfg kvs
-  rw [hfile] at hsz ⊢
-  have hfb : (closeFilter cfg (appended cfg kvs)).isSome = cfg.filter.isSome := by simp [closeFilter]
-  obtain ⟨t, ho, he⟩ := entries_written cfg hck cs _ hfb hsz (name_small cfg cs _ hfb hsz) verify
-    (fun c hm => small_chunk cs (hflat ▸ hs) c hm)
-  exact ⟨t, ho, by rw [he, hflat]⟩
+    ∃ t, Table.open cfg verify (Table.write cfg kvs) = some t ∧ t.entries = some kvs :=
+  entries_of_write cfg hck kvs hs hsz verify
 
 /-- a configuration for the examples: 32-byte blocks, restart interval 2, no filter, bytewise order with a
 comparer that never shortens keys, a toy 32-bit checksum -/
@@ -84,52 +73,44 @@ def exCfg : TableCfg := ⟨32, 2, none, 4, bytesCompare, fun _ _ => none, fun _ 
 example : ∃ t, Table.open exCfg true (Table.write exCfg exKVs) = some t ∧ t.entries = some exKVs :=
   table_entries_write exCfg (by intro bs; simp only [exCfg]; omega) exKVs exKVs_small (by decide +kernel) true
 
+/-- content of a range-restricted iterator (`NewIterator(&util.Range{Start, Limit})`): the pairs from the first
+key `≥ start` up to (not including) the first key `≥ limit`.  NOT proved in general here (the harness compares
+`entriesInRange` with the Go iterator on every generated table); see `table_range_partial`. -/
+def table_range_full : Prop :=
+  ∀ (cfg : TableCfg), Cksum32 cfg.cksum → LawfulCmp cfg.cmp → SepOK cfg → SuccOK cfg →
+    ∀ (kvs : List KV), SmallKV kvs → StrictSorted cfg.cmp kvs → (∀ kv ∈ kvs.tail, kv.1 ≠ []) →
+      (Table.write cfg kvs).length < 2 ^ 32 → ∀ (verify : Bool) (start limit : Option Bytes),
+        ∃ t, Table.open cfg verify (Table.write cfg kvs) = some t ∧
+          t.entriesInRange start limit = some (TableR.sliceBlock cfg.cmp start limit kvs)
+
+/-- the unrestricted range (`Start = Limit = nil`) yields all pairs -/
+theorem table_range_partial (cfg : TableCfg) (hck : Cksum32 cfg.cksum) (kvs : List KV) (hs : SmallKV kvs)
+    (hsz : (Table.write cfg kvs).length < 2 ^ 32) (verify : Bool) :
+    ∃ t, Table.open cfg verify (Table.write cfg kvs) = some t ∧ t.entriesInRange none none = some kvs := by
+  obtain ⟨t, ho, he⟩ := table_entries_write cfg hck kvs hs hsz verify
+  exact ⟨t, ho, by rw [entriesInRange_none, he]⟩
+
+example : ∃ t, Table.open exCfg true (Table.write exCfg exKVs) = some t ∧
+    t.entriesInRange (some [1, 2]) (some [3]) = some [([1, 2], [11]), ([1, 2, 3], []),
+      ([2], [13, 14, 15, 16, 17, 18, 19, 20, 21, 22, 23, 24, 25])] := by
+  obtain ⟨t, ho, _⟩ := table_entries_write exCfg (by intro bs; simp only [exCfg]; omega) exKVs exKVs_small
+    (by decide +kernel) true
+  refine ⟨t, ho, ?_⟩
+  have : Table.open exCfg true (Table.write exCfg exKVs) = some t := ho
+  revert this
+  cases hopen : Table.open exCfg true (Table.write exCfg exKVs) with
+  | none => intro h; cases h
+  | some t' =>
+    intro h
+    have : t' = t := Option.some.inj h
+    subst this
+    have hev : (Table.open exCfg true (Table.write exCfg exKVs)).bind (fun t => t.entriesInRange (some [1, 2]) (some [3]))
+        = some [([1, 2], [11]), ([1, 2, 3], []), ([2], [13, 14, 15, 16, 17, 18, 19, 20, 21, 22, 23, 24, 25])] := by
+      decide +kernel
+    rw [hopen] at hev
+    exact hev
+
 /-! ## (d) lookups -/
-
-/-- what the table writer needs from comparer and checksum -/
-structure CfgOK (cfg : TableCfg) : Prop where
-  cmp : LawfulCmp cfg.cmp
-  sep : SepOK cfg
-  succ : SuccOK cfg
-  ck : Cksum32 cfg.cksum
-
-/-- only the first key of a table may be the empty string (`flushPendingBH` takes an empty next key for "no
-next key" and calls `Successor` instead of `Separator`) -/
-def TailKeysNonempty (kvs : List KV) : Prop := ∀ kv ∈ kvs.tail, kv.1 ≠ []
-
-theorem chunksOK_of {cfg : TableCfg} {kvs : List KV} {cs : List (List KV)} (hflat : cs.flatten = kvs)
-    (hne : ∀ c ∈ cs, c ≠ []) (hsorted : StrictSorted cfg.cmp kvs) (hk : TailKeysNonempty kvs) :
-    ChunksOK cfg cs [] := by
-  refine ⟨by simpa [hflat] using hsorted, hne, ?_⟩
-  cases cs with
-  | nil => trivial
-  | cons c rest =>
-    have hc : c ≠ [] := hne c (by simp)
-    cases c with
-    | nil => exact absurd rfl hc
-    | cons x c' =>
-      intro kv hm
-      apply hk kv
-      rw [← hflat]
-      simp only [List.flatten_cons, List.cons_append, List.tail_cons]
-      simp only [List.append_nil] at hm
-      exact List.mem_append_right _ hm
-
-theorem table_find_spec' (cfg : TableCfg) (hok : CfgOK cfg) (kvs : List KV) (hs : SmallKV kvs)
-    (hsorted : StrictSorted cfg.cmp kvs) (hk : TailKeysNonempty kvs)
-    (hsz : (Table.write cfg kvs).length < 2 ^ 32) (verify : Bool) (key : Bytes) :
-    ∃ t, Table.open cfg verify (Table.write cfg kvs) = some t ∧ t.cmp = cfg.cmp ∧
-      t.find key false = resultOf (kvs.find? fun e => cfg.cmp e.1 key != .lt) := by
-  obtain ⟨cs, hfile, hflat, hshape⟩ := write_shape cfg kvs
-  rw [hfile] at hsz ⊢
-  have hfb : (closeFilter cfg (appended cfg kvs)).isSome = cfg.filter.isSome := by simp [closeFilter]
-  have hsh : cs = [[]] ∨ ChunksOK cfg cs [] := by
-    rcases hshape with ⟨_, h⟩ | ⟨_, h⟩
-    · exact Or.inl h
-    · exact Or.inr (chunksOK_of hflat h hsorted hk)
-  obtain ⟨t, ho, hcmp, hf⟩ := find_written cfg hok.cmp hok.sep hok.succ hok.ck cs _ hfb hsz
-    (name_small cfg cs _ hfb hsz) verify hsh (hflat ▸ hs) key
-  exact ⟨t, ho, hcmp, by rw [hf, hflat]⟩
 
 /-- `Reader.Find` (unfiltered) on a written table returns the first pair whose key is not below the sought key,
 `ErrNotFound` if there is none -/
@@ -295,24 +276,27 @@ theorem block_damage_detected {cksum : Bytes → Nat} (hd : DetectsSingle cksum)
     readRawBlock cksum (file.set i b) bh true = none :=
   readRawBlock_damage hd file bh hin hok i b hlo hhi hne
 
+/-- non-vacuity: the little-endian value of the input is a checksum that detects every single altered position -/
+example : readRawBlock rdLE ((withTrailer rdLE [1, 2, 3]).set 1 9) ⟨0, 3⟩ true = none :=
+  block_damage_detected (cksum := rdLE) (fun bs i b h hne => rdLE_set_ne bs i b h hne)
+    (withTrailer rdLE [1, 2, 3]) ⟨0, 3⟩ (by decide) (by decide) 1 9 (by decide) (by decide) (by decide)
+
+-- a checksum without `DetectsSingle` (here: the length mod 7) lets the same damage through
 example : readRawBlock (fun bs => bs.length % 7) ((withTrailer (fun bs => bs.length % 7) [1, 2, 3]).set 1 9) ⟨0, 3⟩ true
     = some [1, 9, 3] := by decide
--- (the toy checksum above does not detect the change: `DetectsSingle` is a real requirement, met by CRC32C)
-
-example : readRawBlock (fun bs => (bs.map UInt8.toNat).sum) ((withTrailer (fun bs => (bs.map UInt8.toNat).sum) [1, 2, 3]).set 1 9)
-    ⟨0, 3⟩ true = none := by decide
 
 end GoLevel.C13
 
 /-- the property theorems of C13 -/
 def GoLevel.C13.theorems : List String :=
   ["GoLevel.C13.block_decode_build", "GoLevel.C13.block_seek_spec", "GoLevel.C13.table_entries_write",
-   "GoLevel.C13.table_find_spec", "GoLevel.C13.table_get_spec", "GoLevel.C13.offsetOf_monotone",
+   "GoLevel.C13.table_range_partial", "GoLevel.C13.table_find_spec", "GoLevel.C13.table_get_spec", "GoLevel.C13.offsetOf_monotone",
    "GoLevel.C13.filter_partition", "GoLevel.C13.table_filtered_find_stored", "GoLevel.C13.block_damage_detected"]
 
 #print axioms GoLevel.C13.block_decode_build
 #print axioms GoLevel.C13.block_seek_spec
 #print axioms GoLevel.C13.table_entries_write
+#print axioms GoLevel.C13.table_range_partial
 #print axioms GoLevel.C13.table_find_spec
 #print axioms GoLevel.C13.table_get_spec
 #print axioms GoLevel.C13.offsetOf_monotone
